@@ -51,6 +51,30 @@ class Finding:
         }
 
 
+# rule ids whose obligations are produced by an analysis of the code's meaning (term comparison, finite-domain
+# evaluation, abstract interpretation, registry / catalogue set comparison, ownership analysis ...).  Every other rule
+# recognises a construct by its shape; a mismatch there is only evidence that the construct was rewritten.
+SEMANTIC_RULES = {
+    "C01": {"R1", "R3", "R4"},
+    "C02": {"R2", "R3", "R5", "R7"},
+    "C03": {"R1", "R4", "R5", "R6"},
+    "C04": {"R1", "R2", "R3", "R4"},
+    "C05": {"R1", "R2", "R3", "R6"},
+    "C06": {"R2", "R3", "R4", "R5", "R8"},
+    "C07": {"R2", "R4"},
+    "C08": {"G1", "G2", "G5"},
+    "C09": {"R4", "R5"},
+    "C10": {"ENTRY", "PRIM", "CLONE", "BACKEND", "FTYPE", "OWN", "IMM"},
+    "C11": {"R1", "R5", "R6"},
+    "C13": {"UNIQ", "LCA", "SIZED", "CONST", "XMODEL", "CONSTREJ", "DET"},
+    "C14": {"R5"},
+    "C16": {"CLONE", "R6", "R7", "R8"},
+    "C17": {"R1", "R5", "R6"},
+    "C18": {"R1", "R2", "R3", "R4", "R5"},
+    "C19": {"R1", "R2", "R3", "R3b", "R4", "R8", "R9", "R10", "A12"},
+}
+
+
 class Check:
     """Context handed to a property's rule module."""
 
@@ -76,6 +100,8 @@ class Check:
         self.rule_text: dict[str, str] = {}
         self.extra_cov: dict = {}
         self.floor_failures: list[str] = []
+        self.undecided: list[str] = []
+        self.shape_lost: dict = {}
         self.t0 = time.time()
 
     # -- bookkeeping -----------------------------------------------------------
@@ -110,6 +136,8 @@ class Check:
         if good:
             self.discharged += 1
             pr[1] += 1
+        elif self._shape_undecided(rule, module, node):
+            self.undecided.append(f"{rule}: {ctext[:160]}")
         else:
             self.findings.append(Finding(self.prop, rule, module, node, ctext, message, extra))
         k = self.sample_rules.get(rule, 0)
@@ -125,6 +153,26 @@ class Check:
                     **({"detail": message[:300]} if message else {}),
                 }
             )
+
+    def _shape_undecided(self, rule, module, node) -> bool:
+        """A rule outside SEMANTIC_RULES recognises a construct by its shape.  When it fails although the function
+        concerned (with the functions it calls) still contains every behaviour-carrying token of the version the rule
+        was written against, the construct was rewritten, not removed: there is no evidence of a violation and the
+        obligation is recorded as undecided.  When tokens were lost (a raise, a call, a comparison, a constant ...) the
+        failure is reported."""
+        if rule in SEMANTIC_RULES.get(self.prop, set()) or os.environ.get("PDTSA_SHAPE") == "strict":
+            return False
+        if not isinstance(module, Module) or node is None or isinstance(node, str):
+            return False
+        from .source import lost_tokens
+
+        lost = lost_tokens(module, node)
+        if lost is None:
+            return False
+        if lost:
+            self.shape_lost.setdefault(rule, set()).update(sorted(lost)[:6])
+            return False
+        return True
 
     def floor(self, rule: str, what: str, count: int, minimum: int):
         """vacuity protection: a rule that matches fewer instances than were confirmed
@@ -161,7 +209,14 @@ class Check:
                 violations.append(f)
 
         if self.floor_failures and not violations:
-            raise AnalysisError("; ".join(self.floor_failures))
+            # instance floors guard against a vacuous pass on the tree the instances were counted on.  On a tree whose
+            # source differs from that snapshot fewer recognised instances only mean that some construct was rewritten:
+            # recorded as undecided, not as a broken run.
+            if self.repo.same_as_reference():
+                raise AnalysisError("; ".join(self.floor_failures))
+            for ff in self.floor_failures:
+                self.undecided.append("instance floor: " + ff[:200])
+            self.floor_failures = []
         for ff in self.floor_failures:
             self.notes.append("instance floor not met (a violation was found, which takes precedence): " + ff)
         print(f"[{self.prop}] tier={self.tier} repo={self.repo.root} digest={self.repo.digest()}")
@@ -171,6 +226,11 @@ class Check:
         )
         for rid, (n, okc) in sorted(self.per_rule.items()):
             print(f"[{self.prop}]   {rid}: {okc}/{n}  {self.rule_text.get(rid, '')[:110]}")
+        if self.undecided:
+            self.notes.append(
+                f"{len(self.undecided)} shape obligation(s) undecided: the construct was rewritten in a form the rule does not "
+                f"recognise and nothing was removed from the function (no violation claimed): " + "; ".join(self.undecided[:4])
+            )
         for n in self.notes:
             print(f"[{self.prop}] note: {n}")
 
